@@ -20,6 +20,8 @@ CLAIMED = {
          'Decides the reuse clause (close() resets every per-connection field on every path), that no hop writes payload bytes, that sequence counters have one source and every delivery is justified by a sequence test or a reorder lookup keyed by the expected number, that EOF is numbered and sequenced like data and surfaced only when no gathered byte is pending. The prefix property under arbitrary drops/read sizes is not decided.', '4/C05'),
  'C06': ('static: wake-up guards evaluated exhaustively over a finite abstract domain (sign of in_flight+mss-cwnd before/after; queue size classes), byte-account pairing rules, must-precede rules for the drop callback',
          'Decides the structural causes of the three named stalls: every resource change (ACK, segment push, SYN-ACK, accept registration, queued SYN) reaches the waiter dispatch in every abstract state where the resource became available; every end of flight subtracts and erases; every (re)transmission carries an armed drop callback. Eventual delivery is not decided.', '4/C06'),
+ 'C07': ('static: reader table for the true-endpoint field, value-origin checks on both user-visible peer views, CFG path rules on the refusal path, mutation-kind table for the accept queue',
+         'Decides that both user-visible views of the peer read channel::visible_ep, that refusal drops the channel and completes through a positively armed timer, that a channel is created only for a listening registered acceptor, that the accept queue is strictly FIFO and that close(ec) ends listening. Pairing under all schedules is not decided.', '4/C07'),
 }
 
 NOT_YET = {}
